@@ -174,6 +174,21 @@ class Ctx:
         self.checker_cmds.append("coqc -Q coq NQ -Q build/%s Gen %s" % (self.id, vfile))
         return CoqResult(r.returncode == 0, r.stdout, r.stderr, path)
 
+    def coqchk(self, name, timeout=1500):
+        """Re-check build/<id>/<name>.vo and everything it depends on with the independent
+        checker; records the axioms it reports.  Thorough tier only (about a minute)."""
+        cmd = ["timeout", str(timeout), "coqchk", "-silent", "-o", "-Q", COQ, "NQ", "-Q", self.build, "Gen", "Gen." + name]
+        r = subprocess.run(cmd, capture_output=True, text=True, cwd=self.build)
+        self.checker_cmds.append(f"coqchk -silent -o -Q coq NQ -Q build/{self.id} Gen Gen.{name}")
+        m = re.search(r"\* Axioms:(.*?)\n\s*\n\* Constants", r.stdout, flags=re.S)
+        axioms = " ".join(m.group(1).split()) if m else "?"
+        ok = r.returncode == 0
+        self.assumptions_printed["coqchk"] = dict(ok=ok, axioms=axioms)
+        self.gen_obligation(f"coqchk accepts Gen.{name} and its dependencies", ok, (r.stdout + r.stderr)[-300:])
+        if ok and "<none>" not in axioms:
+            self.notes.append(f"coqchk reports axioms for {name}: {axioms}")
+        return ok
+
     def theorem_names(self, path):
         names = []
         for line in open(path):
@@ -197,6 +212,8 @@ class Ctx:
             for n in names:
                 self.obligations.append((n, True))
             self._parse_assumptions(res.out)
+            if self.tier == "thorough" and os.environ.get("VERIF_NO_COQCHK") != "1":
+                self.coqchk(name)
         else:
             bad = res.failing_theorem()
             seen_bad = False
@@ -347,10 +364,20 @@ def main():
     os.environ["NETQASM_VERIF"] = "1"
     ctx.ensure_lib()
     mod = importlib.import_module("checks." + a.pid.lower())
-    if a.replay:
-        mod.replay(ctx, a.replay)
-    else:
-        mod.run(ctx)
+    try:
+        if a.replay:
+            mod.replay(ctx, a.replay)
+        else:
+            mod.run(ctx)
+    except SystemExit:
+        raise
+    except BaseException as e:  # noqa: a harness crash must not swallow what was found so far
+        import traceback
+        tb = traceback.format_exc()
+        print(tb[-2000:])
+        ctx.broken.append(f"harness crashed while checking (the implementation behaved in a way the harness "
+                          f"cannot canonicalise): {type(e).__name__}: {str(e)[:300]}")
+        ctx.finish()
 
 
 if __name__ == "__main__":
